@@ -136,6 +136,7 @@ Definition consts : registry_consts :=
      rc_lookup_ok := true;
      rc_entries_ok := true;
      rc_dispatch := DispatchCallByName;
+     rc_callers := [("src/action/log-message-dispatch.c", "snoopy_outputregistry_dispatch"); ("src/configfile.c", "snoopy_outputregistry_doesNameExist"); ("src/filtering.c", "snoopy_filterregistry_callByName"); ("src/filtering.c", "snoopy_filterregistry_doesNameExist"); ("src/message.c", "snoopy_datasourceregistry_callByName"); ("src/message.c", "snoopy_datasourceregistry_doesNameExist")];
      rc_ds := ds; rc_flt := flt; rc_out := out;
      rc_configure_features := ["SNOOPY_CONF_DATASOURCE_ENABLED_cgroup"; "SNOOPY_CONF_DATASOURCE_ENABLED_cmdline"; "SNOOPY_CONF_DATASOURCE_ENABLED_cwd"; "SNOOPY_CONF_DATASOURCE_ENABLED_datetime"; "SNOOPY_CONF_DATASOURCE_ENABLED_domain"; "SNOOPY_CONF_DATASOURCE_ENABLED_egid"; "SNOOPY_CONF_DATASOURCE_ENABLED_egroup"; "SNOOPY_CONF_DATASOURCE_ENABLED_env"; "SNOOPY_CONF_DATASOURCE_ENABLED_env_all"; "SNOOPY_CONF_DATASOURCE_ENABLED_euid"; "SNOOPY_CONF_DATASOURCE_ENABLED_eusername"; "SNOOPY_CONF_DATASOURCE_ENABLED_filename"; "SNOOPY_CONF_DATASOURCE_ENABLED_gid"; "SNOOPY_CONF_DATASOURCE_ENABLED_group"; "SNOOPY_CONF_DATASOURCE_ENABLED_hostname"; "SNOOPY_CONF_DATASOURCE_ENABLED_ipaddr"; "SNOOPY_CONF_DATASOURCE_ENABLED_login"; "SNOOPY_CONF_DATASOURCE_ENABLED_pid"; "SNOOPY_CONF_DATASOURCE_ENABLED_ppid"; "SNOOPY_CONF_DATASOURCE_ENABLED_rpname"; "SNOOPY_CONF_DATASOURCE_ENABLED_sid"; "SNOOPY_CONF_DATASOURCE_ENABLED_snoopy_configure_command"; "SNOOPY_CONF_DATASOURCE_ENABLED_snoopy_literal"; "SNOOPY_CONF_DATASOURCE_ENABLED_snoopy_threads"; "SNOOPY_CONF_DATASOURCE_ENABLED_snoopy_version"; "SNOOPY_CONF_DATASOURCE_ENABLED_systemd_unit_name"; "SNOOPY_CONF_DATASOURCE_ENABLED_tid"; "SNOOPY_CONF_DATASOURCE_ENABLED_tid_kernel"; "SNOOPY_CONF_DATASOURCE_ENABLED_timestamp"; "SNOOPY_CONF_DATASOURCE_ENABLED_timestamp_ms"; "SNOOPY_CONF_DATASOURCE_ENABLED_timestamp_us"; "SNOOPY_CONF_DATASOURCE_ENABLED_tty"; "SNOOPY_CONF_DATASOURCE_ENABLED_tty_uid"; "SNOOPY_CONF_DATASOURCE_ENABLED_tty_username"; "SNOOPY_CONF_DATASOURCE_ENABLED_uid"; "SNOOPY_CONF_DATASOURCE_ENABLED_username"; "SNOOPY_CONF_FILTER_ENABLED_exclude_spawns_of"; "SNOOPY_CONF_FILTER_ENABLED_exclude_uid"; "SNOOPY_CONF_FILTER_ENABLED_only_root"; "SNOOPY_CONF_FILTER_ENABLED_only_tty"; "SNOOPY_CONF_FILTER_ENABLED_only_uid"; "SNOOPY_CONF_OUTPUT_ENABLED_devlog"; "SNOOPY_CONF_OUTPUT_ENABLED_devnull"; "SNOOPY_CONF_OUTPUT_ENABLED_devtty"; "SNOOPY_CONF_OUTPUT_ENABLED_file"; "SNOOPY_CONF_OUTPUT_ENABLED_socket"; "SNOOPY_CONF_OUTPUT_ENABLED_stderr"; "SNOOPY_CONF_OUTPUT_ENABLED_stdout"; "SNOOPY_CONF_OUTPUT_ENABLED_syslog"];
      rc_configure_generic := ["SNOOPY_CONF_THREAD_SAFETY_ENABLED"; "SNOOPY_CONF_FILTERING_ENABLED"; "SNOOPY_CONF_CODE_COVERAGE_ENABLED"; "SNOOPY_CONF_LIBDIR"; "SNOOPY_CONF_SBINDIR"; "SNOOPY_CONF_CONFIGFILE_ENABLED"; "SNOOPY_CONF_CONFIGFILE_PATH"; "SNOOPY_CONF_SYSCONFDIR"; "SNOOPY_CONF_ERROR_LOGGING_ENABLED"; "SNOOPY_CONF_MESSAGE_FORMAT"; "SNOOPY_CONF_FILTER_CHAIN"; "SNOOPY_CONF_OUTPUT_DEFAULT"; "SNOOPY_CONF_OUTPUT_DEFAULT_ARG"; "SNOOPY_CONF_SYSLOG_FACILITY"; "SNOOPY_CONF_SYSLOG_LEVEL"; "SNOOPY_CONF_SYSLOG_IDENT_FORMAT"];
